@@ -165,4 +165,62 @@ theorem checkReferences_ok_iff (w : World) (lf : Nat) (es : List Edge) :
     | false => rfl
     | true => simp [h e he hh]
 
+/-! ### the checks in high-compatibility mode -/
+
+theorem checkChannelCounts_off (w : World) (lf c f : Nat) (es : List Edge) :
+    checkChannelCounts false w lf c f es = .ok () := by simp [checkChannelCounts]
+
+/-- outside the mode the checks are the ones above -/
+theorem checkObjectsHc_false (w : World) (lf c f : Nat) (es : List Edge) (fid : Nat → Bool) :
+    checkObjectsHc false w lf c f es fid = checkObjects w lf c f es fid := by
+  simp only [checkObjectsHc, checkObjects, checkChannelCounts_off, bind, Except.bind]
+
+theorem checkAllHc_false (w : World) (c f : Nat) (es : List Edge) (fid : Nat → Bool) (l : List Nat) :
+    checkAllHc false w c f es fid l = checkAll w c f es fid l := by
+  induction l with
+  | nil => rfl
+  | cons a rest ih => simp only [checkAllHc, checkAll, checkObjectsHc_false, ih]
+
+theorem acceptWriteHc_false (w : World) (c f : Nat) (es : List Edge) (fid : Nat → Bool) :
+    acceptWriteHc false w c f es fid = acceptWrite w c f es fid := by
+  simp only [acceptWriteHc, acceptWrite, checkAllHc_false]
+
+theorem checkAllHc_ok (hc : Bool) (w : World) (c f : Nat) (es : List Edge) (fid : Nat → Bool) (l : List Nat)
+    (h : checkAllHc hc w c f es fid l = .ok ()) : ∀ lf ∈ l, checkObjectsHc hc w lf c f es fid = .ok () := by
+  induction l with
+  | nil => intro lf hlf; cases hlf
+  | cons a rest ih =>
+    intro lf hlf
+    simp only [checkAllHc, bind, Except.bind] at h
+    cases hcx : checkObjectsHc hc w a c f es fid with
+    | error e => rw [hcx] at h; cases h
+    | ok u =>
+      rw [hcx] at h
+      rcases List.mem_cons.mp hlf with rfl | hr
+      · cases u; exact hcx
+      · exact ih h lf hr
+
+/-- what an accepted write in the mode says about one logical file: every channel of it is listed exactly once by
+its frames -/
+theorem acceptWriteHc_counts (w : World) (c f : Nat) (es : List Edge) (fid : Nat → Bool)
+    (h : acceptWriteHc true w c f es fid = .ok ()) (lf : Nat) (hlf : lf < w.keys.length) :
+    checkChannelCounts true w lf c f es = .ok () := by
+  simp only [acceptWriteHc, bind, Except.bind] at h
+  cases h1 : checkAllHc true w c f es fid (List.range w.keys.length) with
+  | error e => rw [h1] at h; cases h
+  | ok u =>
+    have h2 := checkAllHc_ok true w c f es fid _ (by cases u; exact h1) lf (by simp [hlf])
+    simp only [checkObjectsHc, bind, Except.bind] at h2
+    cases h3 : checkCompleteness w lf c f with
+    | error e => rw [h3] at h2; cases h2
+    | ok _ =>
+      rw [h3] at h2
+      cases h4 : checkFrameChannels w lf c f es with
+      | error e => rw [h4] at h2; cases h2
+      | ok _ =>
+        rw [h4] at h2
+        cases h5 : checkChannelCounts true w lf c f es with
+        | error e => rw [h5] at h2; cases h2
+        | ok u5 => cases u5; rfl
+
 end Dlis
